@@ -10,6 +10,7 @@ import LekkerVerif.Core.HierSolve
 import LekkerVerif.Model.HierParams
 import LekkerVerif.Model.HierParamsWF
 import LekkerVerif.Core.HierFlatten
+import LekkerVerif.Core.HierSplit
 import LekkerVerif.Model.WiringNet
 import LekkerVerif.Core.WFCheck
 /-! Driver ops.  Each op runs executable definitions of the model on the decoded request. -/
@@ -335,6 +336,21 @@ def opPFlatten (j : Json) : Json :=
         ("T", Json.arr (c.pins.map fun x => Json.arr (c.pins.map fun y => gratToJson (c.sem x y)).toArray).toArray)])
   | _, _ => errJson "parse"
 
+/-- op `hsplit`: `Solver.split()` on a level (`HNet.splitLevel`): for every part the positions of its children in the original, the
+names it exposes and its solve -/
+def opHSplit (j : Json) : Json :=
+  match (j.getObjVal? "tree").toOption >>= parseTree with
+  | some (.node cs links exposed) =>
+    let gs := HNet.groups cs.length links
+    Json.mkObj [("parts", Json.arr (gs.map fun g =>
+      let sub := HNet.subLevel cs links exposed g
+      let base := [("positions", toJson (HNet.positions cs.length g)), ("names", toJson sub.pinNamesB), ("wftree", sub.wfTreeB)]
+      match HNet.solveH Solve.pySched sub with
+      | .error e => Json.mkObj (base ++ [("err", Json.str (errName e))])
+      | .ok c => Json.mkObj (base ++ [("pins", toJson c.pins),
+          ("T", Json.arr (c.pins.map fun x => Json.arr (c.pins.map fun y => gratToJson (c.sem x y)).toArray).toArray)])).toArray)]
+  | _ => errJson "parse"
+
 /-- op `monsolve`: the monitor path of `Solver.solve` (`Monitor.solveMonitored` with the pin-count heuristic) -/
 def opMonSolve (j : Json) : Json :=
   match fromJson? (α := CaseJ) j with
@@ -373,6 +389,7 @@ def dispatch (j : Json) : Json :=
   | some "monsolve" => opMonSolve j
   | some "hsolve" => opHSolve j
   | some "hflatten" => opHFlatten j
+  | some "hsplit" => opHSplit j
   | some "wsolve" => opWSolve j
   | some "phsolve" => opPHSolve j
   | some "pflatten" => opPFlatten j
